@@ -1559,7 +1559,8 @@ type _structIterator struct {
 	nextIndex  int
 
 	// these are only used in repr.go
-	reprEnd int
+	reprEnd   int
+	reprIndex int
 }
 
 func (w *_structIterator) Next() (key, value datamodel.Node, _ error) {
